@@ -197,6 +197,15 @@ type Invalidator interface {
 	InvalidateLag() error
 }
 
+// contextErr returns the reason a done context ended. Contexts that do not
+// track a cause (such as the store's primary context) report ctx.Err().
+func contextErr(ctx context.Context) error {
+	if err := context.Cause(ctx); err != nil {
+		return err
+	}
+	return ctx.Err()
+}
+
 func assert(condition bool, msg string) {
 	if !condition {
 		panic("assertion failed: " + msg)
